@@ -203,7 +203,7 @@ func runC02(r *Report) {
 			case *ssa.Phi:
 				for i, e := range x.Edges {
 					pred := x.Block().Preds[i]
-					egs := append(append([]Guard{}, guardsOf(pred)...), edgeGuard(pred, x.Block())...)
+					egs := guardsOnEdge(pred, x.Block())
 					if ok, why := destOK(e, egs, d+1); !ok {
 						return false, why
 					}
